@@ -5,4 +5,4 @@ import (
 	"verifharness/drv"
 )
 
-func main() { drv.Main("C04", c04.Run); stopProf() }
+func main() { drv.Main("C04", c04.Run) }
